@@ -1,5 +1,5 @@
 """C05 — JSON Patch application conforms to RFC 6902 for every document and patch."""
-from jsonpath import JSONPatch
+from jsonpath import JSONPatch, JSONPointer
 
 from . import sx as SX
 from .common import SMALL_DOCS, all_locs, exc_name, gen_container, rfc6901_spell, deep
@@ -231,7 +231,46 @@ def impl(case):
         out["apply"] = ["ok", SX.canon(res)]
     except Exception as e:  # noqa: BLE001
         out["apply"] = ["err", exc_name(e)]
+    if parts_route_applicable(case):
+        # the same operations through the builder methods, each pointer given as an OBJECT built from its reference
+        # tokens (JSONPointer.from_parts keeps every token as a string): equal pointers must act equally
+        try:
+            b = JSONPatch(unicode_escape=case["mode"])
+            for o in case["ops"]:
+                ptrs = [JSONPointer.from_parts(_tokens(t), unicode_escape=case["mode"]) for t in o[1:] if isinstance(t, str)]
+                if o[0] in ("add", "addne", "addap", "replace", "test"):
+                    getattr(b, o[0])(JSONPointer.from_parts(_tokens(o[1]), unicode_escape=case["mode"]), deep(o[2]))
+                elif o[0] == "remove":
+                    b.remove(ptrs[0])
+                else:
+                    getattr(b, o[0])(ptrs[0], ptrs[1])
+            via = ["ok", SX.canon(b.apply(deep(case["doc"])))]
+        except Exception as e:  # noqa: BLE001
+            via = ["err", exc_name(e)]
+        out["parts_route_same"] = via == out["apply"]
+        if not out["parts_route_same"]:
+            out["parts_route_counterexample"] = {"text": out["apply"], "from_parts": via}
     return out
+
+
+def _tokens(text):
+    return [t.replace("~1", "/").replace("~0", "~") for t in text.split("/")[1:]]
+
+
+def parts_route_applicable(case):
+    """every path is RFC 6901 text whose index-like tokens lie within the index limits (beyond them the text form is
+    refused at parse time - the recorded C04 finding - and the two routes legitimately differ)"""
+    for o in case["ops"]:
+        if o[0] not in ("add", "remove", "replace", "move", "copy", "test", "addne", "addap"):
+            return False
+        for t in (o[1:2] if o[0] in ("add", "addne", "addap", "replace", "test", "remove") else o[1:3]):
+            if not isinstance(t, str) or (t and not t.startswith("/")) or "\\" in t:
+                return False
+            for tok in _tokens(t):
+                body = tok[1:] if tok[:1] == "-" else tok
+                if body.isdigit() and (len(body) > 15 or not body.isascii()):
+                    return False
+    return True
 
 
 def _op_from_sx(x):
@@ -263,6 +302,10 @@ def decode(sx, case):
         spec = {"apply": ["ok", canon_unordered(SX.canon(SX.sx2j(s[1])))]}
     in_domain = (flags["std-ops"] and flags["outside-ext"] and flags["within-limits"] and flags["wf"]
                  and (not case["mode"] or flags["no-backslash"]) and not unsupported)
+    if parts_route_applicable(case) and "apply" in model:
+        model["parts_route_same"] = True          # PatchLemmas.add_len_string_as_int: a string token acts as the int
+        if spec:
+            spec = dict(spec, parts_route_same=True)
     return {"model": model, "spec": spec, "in_domain": in_domain, "skip": unsupported}
 
 
@@ -270,14 +313,15 @@ def project(case, res, dec=None):
     if res["build"][0] != "ok":
         return {"unexpected-build-error": res["build"]}
     a = res["apply"]
+    extra = {"parts_route_same": res["parts_route_same"]} if "parts_route_same" in res else {}
     if a[0] == "ok":
-        return {"apply": ["ok", canon_unordered(a[1])]}
+        return dict(extra, apply=["ok", canon_unordered(a[1])])
     if a[1] == "patch-test":
         want = (dec or {}).get("spec", {}).get("apply")
-        return {"apply": "error" if want == "error" else "test-failed"}
+        return dict(extra, apply="error" if want == "error" else "test-failed")
     if a[1] == "patch":
-        return {"apply": "error"}
-    return {"apply": a}
+        return dict(extra, apply="error")
+    return dict(extra, apply=a)
 
 
 def nontrivial(case, res):
